@@ -508,4 +508,7 @@ struct Heap
 };
 
 inline Heap g_heap;
+// pages that hold the container objects of the current run (released by the worker after the run)
+inline unsigned char* g_obj_pages = nullptr;
+inline volatile bool g_read_phase = false;  // C19: shared state is write-protected
 }  // namespace sim
